@@ -46,8 +46,8 @@ import (
 	"go.opentelemetry.io/collector/pdata/pmetric"
 	"go.opentelemetry.io/collector/pdata/pprofile"
 	"go.opentelemetry.io/collector/pdata/ptrace"
-	"go.opentelemetry.io/collector/processor/memorylimiterprocessor"
 	"go.opentelemetry.io/collector/processor"
+	"go.opentelemetry.io/collector/processor/memorylimiterprocessor"
 	"go.opentelemetry.io/collector/processor/xprocessor"
 	"go.opentelemetry.io/collector/verifharness/lib/driver"
 )
@@ -841,8 +841,19 @@ func sinkResult(k int) (error, string) {
 
 // checkConsume performs one consume call and judges it. refusing: 1 yes, 0 no, -1 unknown (concurrent
 // phase: only the consistency of the call is judged).
-func checkConsume(c *driver.Ctx, p *proc, id string, refusing int, sinkKind int, wit func() any) {
+func checkConsume(c *driver.Ctx, p *proc, id string, refusing int, sinkKind int, wit func() any, when ...string) {
 	res, resName := sinkResult(sinkKind)
+	// when names the lifecycle event of another sharer that immediately preceded this call (no check awaited)
+	viol := func(sub, what string, sig ...string) {
+		if len(when) > 0 {
+			what = "immediately after " + when[0] + ": " + what
+			sig = append(sig, "when", when[0])
+		}
+		c.Violation(sub, what, wit(), sig...)
+	}
+	if len(when) > 0 {
+		c.Observe("l2_consume_immediately_after_sharer_"+when[0], 1)
+	}
 	p.sk.mu.Lock()
 	p.sk.result = res
 	before := p.sk.calls
@@ -863,24 +874,24 @@ func checkConsume(c *driver.Ctx, p *proc, id string, refusing int, sinkKind int,
 		c.Observe("l2_consume_refused", 1)
 		switch {
 		case forwarded:
-			c.Violation("L2-refuse", "payload forwarded downstream while the limiter is refusing", wit(), "signal", p.Signal, "problem", "forwarded-while-refusing")
+			viol("L2-refuse", "payload forwarded downstream while the limiter is refusing", "signal", p.Signal, "problem", "forwarded-while-refusing")
 		case err == nil:
-			c.Violation("L2-refuse", "consume returned nil and forwarded nothing (data silently dropped)", wit(), "signal", p.Signal, "problem", "nil-error-without-forwarding")
+			viol("L2-refuse", "consume returned nil and forwarded nothing (data silently dropped)", "signal", p.Signal, "problem", "nil-error-without-forwarding")
 		case consumererror.IsPermanent(err):
-			c.Violation("L2-refuse", "refusal is reported as a permanent error: "+err.Error(), wit(), "signal", p.Signal, "problem", "permanent-error")
+			viol("L2-refuse", "refusal is reported as a permanent error: "+err.Error(), "signal", p.Signal, "problem", "permanent-error")
 		}
 		return
 	}
 	c.Observe("l2_consume_forwarded", 1)
 	switch {
 	case !forwarded:
-		c.Violation("L2-forward", fmt.Sprintf("not refusing, yet nothing was forwarded (returned %v)", err), wit(), "signal", p.Signal, "problem", "not-forwarded")
+		viol("L2-forward", fmt.Sprintf("not refusing, yet nothing was forwarded (returned %v)", err), "signal", p.Signal, "problem", "not-forwarded")
 	case calls != 1:
-		c.Violation("L2-forward", fmt.Sprintf("payload forwarded %d times", calls), wit(), "signal", p.Signal, "problem", "forwarded-more-than-once")
+		viol("L2-forward", fmt.Sprintf("payload forwarded %d times", calls), "signal", p.Signal, "problem", "forwarded-more-than-once")
 	case string(last) != string(want):
-		c.Violation("L2-forward", "forwarded payload differs from the payload given to the processor", wit(), "signal", p.Signal, "problem", "payload-modified")
+		viol("L2-forward", "forwarded payload differs from the payload given to the processor", "signal", p.Signal, "problem", "payload-modified")
 	case (res == nil) != (err == nil) || (res != nil && !errors.Is(err, res)) || consumererror.IsPermanent(err) != consumererror.IsPermanent(res):
-		c.Violation("L2-forward", fmt.Sprintf("downstream returned %v, the processor returned %v", res, err), wit(), "signal", p.Signal, "problem", "downstream-result-not-returned", "downstream", resName)
+		viol("L2-forward", fmt.Sprintf("downstream returned %v, the processor returned %v", res, err), "signal", p.Signal, "problem", "downstream-result-not-returned", "downstream", resName)
 	}
 }
 
@@ -982,6 +993,24 @@ func (e *l2env) l2Sequential(idx int64, rng *rand.Rand, allowGap bool) {
 		c.Violation("L2-liveness", "the shared checker stopped measuring although a started processor is still using the limiter (witness ticker of the same period fired 3 x 400 times meanwhile)", livenessWit(wit()), "pattern", pattern)
 		return false
 	}
+	// immediate: a Start / Shutdown of one sharer has just returned; without waiting for any check, every
+	// started sharer must still behave as the last scripted reading implies (a tick that re-measures the same
+	// level in between cannot change that).
+	immediate := func(ev string, step int) {
+		r := 0
+		if refusing {
+			r = 1
+		}
+		for i, p := range procs {
+			if state[i] != 1 {
+				continue
+			}
+			sk := rng.Intn(3)
+			_, skName := sinkResult(sk)
+			ops = append(ops, l2op{Kind: "consume", P: i, Sink: skName, Expect: fmt.Sprintf("refusing=%v (immediately after the %s, no check awaited)", refusing, ev)})
+			checkConsume(c, p, fmt.Sprintf("i%d.%d.%d", idx, step, i), r, sk, wit, ev)
+		}
+	}
 	abort := func() {
 		m.set(0, 0)
 		for i, p := range procs {
@@ -1035,6 +1064,7 @@ func (e *l2env) l2Sequential(idx int64, rng *rand.Rand, allowGap bool) {
 			}
 			active++
 			notStarted--
+			immediate("start", step)
 			if !isAlive(pattern) {
 				abort()
 				return
@@ -1062,9 +1092,12 @@ func (e *l2env) l2Sequential(idx int64, rng *rand.Rand, allowGap bool) {
 				} else {
 					c.Observe("l2_stop_checks", 1)
 				}
-			} else if !isAlive("users-remain") {
-				abort()
-				return
+			} else {
+				immediate("shutdown", step)
+				if !isAlive("users-remain") {
+					abort()
+					return
+				}
 			}
 		case "level":
 			cl := rng.Intn(nClasses)
@@ -1391,6 +1424,230 @@ func (e *l2env) l2Concurrent(idx int64, rng *rand.Rand) {
 	c.Distinct("interleavings", "conc", orderSig.String())
 }
 
+// pickMode draws a level class and GC effect whose steady-state reference decision is the wanted mode.
+func pickMode(rng *rand.Rand, rg regime, soft, hard uint64, refuse bool) (cl, eff int, lv, post uint64) {
+	for {
+		cl, eff = rng.Intn(nClasses), rng.Intn(nEffects)
+		lv = pickLevel(rng, cl, soft, hard)
+		post = postLevel(rng, eff, lv, soft, hard)
+		if want, _, _ := refStep(soft, hard, lv, post, rg.DueSoft, rg.DueHard); want == refuse {
+			return
+		}
+	}
+}
+
+// l2ShareSwitch: 3-4 processors of mixed signals share one limiter whose mode is fixed by the last scripted
+// reading (refusing, or its twin not refusing). One sharer is started late and the sharers are shut down one
+// by one; immediately after each of these lifecycle calls returned - no check is awaited - every remaining
+// sharer must behave exactly as that reading implies: the Start or Shutdown of one user must not change what
+// the others do.
+func (e *l2env) l2ShareSwitch(idx int64, rng *rand.Rand, refuse bool) {
+	c := e.c
+	soft, hard, _ := l2cfg.limits()
+	rg := regimes[rng.Intn(len(regimes))]
+	np := 3 + rng.Intn(2)
+	cfg := l2cfg.config(l2Period, rg.SoftIv, rg.HardIv)
+	fac := memorylimiterprocessor.NewFactory()
+	m := &meter{}
+	core := &capCore{onWrite: m.gcLogged}
+	memorylimiter.ReadMemStatsFn = m.read
+	procs := make([]*proc, np)
+	var sigs []string
+	var ops []l2op
+	wit := func() any {
+		return map[string]any{"layer": "L2-share-switch", "processors": sigs, "regime": rg.Name, "mode_refusing": refuse, "ops": append([]l2op(nil), ops...)}
+	}
+	first := rng.Intn(len(signals))
+	for i := range procs {
+		sig := signals[(first+i)%len(signals)]
+		p, err := mkProc(fac, sig, zap.New(core), cfg)
+		if err != nil {
+			c.Violation("L2-create", "creating a memory_limiter processor failed: "+err.Error(), wit(), "signal", sig)
+			return
+		}
+		procs[i] = p
+		sigs = append(sigs, sig)
+	}
+	c.Eval()
+	started := make([]bool, np)
+	stopAll := func() {
+		m.set(0, 0)
+		for i, p := range procs {
+			if started[i] {
+				_ = safeStop(c, p.comp)
+				started[i] = false
+			}
+		}
+	}
+	for i := 0; i < np-1; i++ {
+		ops = append(ops, l2op{Kind: "start", P: i})
+		if err := safeStart(c, procs[i].comp); err != nil {
+			c.Violation("L2-lifecycle", "Start returned an error: "+err.Error(), wit(), "op", "start")
+		}
+		started[i] = true
+	}
+	cl, eff, lv, post := pickMode(rng, rg, soft, hard, refuse)
+	m.set(lv, post)
+	ops = append(ops, l2op{Kind: "level", Class: clNames[cl], Effect: effNames[eff], Expect: fmt.Sprintf("refusing=%v", refuse)})
+	if r := waitReads(m, e.w, 3); r != alive {
+		if r == dead {
+			c.Violation("L2-liveness", "the shared checker stopped measuring although a started processor is still using the limiter (witness ticker of the same period fired 3 x 400 times meanwhile)", livenessWit(wit()), "pattern", "users-remain")
+		} else {
+			c.Inconclusive("checker-busy-for-4000-witness-ticks")
+		}
+		stopAll()
+		return
+	}
+	mode := 0
+	if refuse {
+		mode = 1
+	}
+	all := func(ev string, round int) {
+		for i, p := range procs {
+			if !started[i] {
+				continue
+			}
+			sk := rng.Intn(3)
+			_, skName := sinkResult(sk)
+			ops = append(ops, l2op{Kind: "consume", P: i, Sink: skName, Expect: fmt.Sprintf("refusing=%v (immediately after the %s, no check awaited)", refuse, ev)})
+			checkConsume(c, p, fmt.Sprintf("s%d.%d.%d", idx, round, i), mode, sk, wit, ev)
+		}
+	}
+	// settled mode, before any lifecycle event
+	for i, p := range procs {
+		if started[i] {
+			checkConsume(c, p, fmt.Sprintf("s%d.b.%d", idx, i), mode, rng.Intn(3), wit)
+		}
+	}
+	// a further sharer starts
+	ops = append(ops, l2op{Kind: "start", P: np - 1})
+	if err := safeStart(c, procs[np-1].comp); err != nil {
+		c.Violation("L2-lifecycle", "Start returned an error: "+err.Error(), wit(), "op", "start")
+	}
+	started[np-1] = true
+	all("start", 0)
+	// sharers leave one by one, in random order, until one is left
+	order := rng.Perm(np)
+	for round, i := range order[:np-1] {
+		ops = append(ops, l2op{Kind: "stop", P: i})
+		if err := safeStop(c, procs[i].comp); err != nil {
+			c.Violation("L2-lifecycle", "Shutdown of a started processor returned an error: "+err.Error(), wit(), "op", "shutdown")
+		}
+		started[i] = false
+		all("shutdown", round+1)
+		if rng.Intn(2) == 0 {
+			// sometimes let a few checks pass between two departures
+			if waitReads(m, e.w, 2) != alive {
+				break
+			}
+		}
+	}
+	m.set(0, 0)
+	lastI := order[np-1]
+	err := safeStop(c, procs[lastI].comp)
+	started[lastI] = false
+	ret := evSeq.Add(1)
+	if err != nil {
+		c.Violation("L2-lifecycle", "Shutdown of a started processor returned an error: "+err.Error(), wit(), "op", "shutdown")
+	}
+	stopAll()
+	e.done = append(e.done, stopped{m, ret, wit()})
+	c.Observe("l2_share_switch_cases", 1)
+	c.Nontrivial("L2-share-switch", sigs, rg.Name, refuse, clNames[cl], effNames[eff], fmt.Sprint(order))
+	c.Distinct("interleavings", "share-switch", np, fmt.Sprint(order), refuse)
+}
+
+// l2ShareSwitchConcurrent: the mode is fixed by the last scripted reading while 2-4 further sharers start and
+// shut down from concurrent goroutines; an anchor sharer consumes all the time and must see exactly that mode
+// in every call. Mainly meaningful in the race variant.
+func (e *l2env) l2ShareSwitchConcurrent(idx int64, rng *rand.Rand, refuse bool) {
+	c := e.c
+	soft, hard, _ := l2cfg.limits()
+	rg := regimes[1+rng.Intn(2)]
+	np := 3 + rng.Intn(3)
+	cfg := l2cfg.config(l2Period, rg.SoftIv, rg.HardIv)
+	fac := memorylimiterprocessor.NewFactory()
+	m := &meter{}
+	core := &capCore{onWrite: m.gcLogged}
+	memorylimiter.ReadMemStatsFn = m.read
+	procs := make([]*proc, np)
+	var sigs []string
+	for i := range procs {
+		sig := signals[(int(idx)+i)%len(signals)]
+		p, err := mkProc(fac, sig, zap.New(core), cfg)
+		if err != nil {
+			c.Violation("L2-create", "creating a memory_limiter processor failed: "+err.Error(), nil, "signal", sig)
+			return
+		}
+		procs[i] = p
+		sigs = append(sigs, sig)
+	}
+	c.Eval()
+	cl, eff, lv, post := pickMode(rng, rg, soft, hard, refuse)
+	wit := func() any {
+		return map[string]any{"layer": "L2-share-switch-concurrent", "processors": sigs, "regime": rg.Name, "mode_refusing": refuse, "level": clNames[cl], "gc_effect": effNames[eff], "case": idx}
+	}
+	if err := safeStart(c, procs[0].comp); err != nil {
+		c.Violation("L2-lifecycle", "Start returned an error: "+err.Error(), wit(), "op", "start")
+		return
+	}
+	m.set(lv, post)
+	if waitReads(m, e.w, 3) != alive {
+		c.Inconclusive("share-switch-concurrent-level-not-settled")
+		m.set(0, 0)
+		_ = safeStop(c, procs[0].comp)
+		return
+	}
+	mode := 0
+	if refuse {
+		mode = 1
+	}
+	seeds := make([]int64, np)
+	for i := range seeds {
+		seeds[i] = rng.Int63()
+	}
+	var wg sync.WaitGroup
+	var running atomic.Int32
+	for i := 1; i < np; i++ {
+		wg.Add(1)
+		running.Add(1)
+		go func(i int) {
+			defer wg.Done()
+			defer running.Add(-1)
+			r := rand.New(rand.NewSource(seeds[i]))
+			time.Sleep(time.Duration(r.Intn(300)) * time.Microsecond)
+			if err := safeStart(c, procs[i].comp); err != nil {
+				c.Violation("L2-lifecycle", "Start returned an error: "+err.Error(), wit(), "op", "start")
+			}
+			checkConsume(c, procs[i], fmt.Sprintf("x%d.%d", idx, i), mode, r.Intn(3), wit, "concurrent-start-shutdown")
+			time.Sleep(time.Duration(r.Intn(500)) * time.Microsecond)
+			if err := safeStop(c, procs[i].comp); err != nil {
+				c.Violation("L2-lifecycle", "Shutdown of a started processor returned an error: "+err.Error(), wit(), "op", "shutdown")
+			}
+		}(i)
+	}
+	for k := 0; running.Load() > 0 || k < 8; k++ {
+		checkConsume(c, procs[0], fmt.Sprintf("xa%d.%d", idx, k), mode, k%3, wit, "concurrent-start-shutdown")
+		if k%4 == 3 {
+			runtime.Gosched()
+		}
+		if k > 20000 {
+			break
+		}
+	}
+	wg.Wait()
+	checkConsume(c, procs[0], fmt.Sprintf("xz%d", idx), mode, 0, wit, "concurrent-start-shutdown")
+	m.set(0, 0)
+	err := safeStop(c, procs[0].comp)
+	ret := evSeq.Add(1)
+	if err != nil {
+		c.Violation("L2-lifecycle", "Shutdown of a started processor returned an error: "+err.Error(), wit(), "op", "shutdown")
+	}
+	e.done = append(e.done, stopped{m, ret, wit()})
+	c.Observe("l2_share_switch_concurrent_cases", 1)
+	c.Nontrivial("L2-share-switch-conc", sigs, rg.Name, refuse, clNames[cl], effNames[eff])
+}
+
 func runL2(c *driver.Ctx, base *int64) {
 	e := &l2env{c: c, w: newWitness(l2Period)}
 	defer close(e.w.stop)
@@ -1427,6 +1684,24 @@ func runL2(c *driver.Ctx, base *int64) {
 		}
 	}
 	idx += nConc
+	// mode must survive the Start / Shutdown of another sharer: directed twin cases (refusing / not refusing)
+	nShare, nShareConc := int64(c.N(6, 120)), int64(c.N(2, 40))
+	if race {
+		nShare, nShareConc = int64(c.N(4, 60)), int64(c.N(6, 160))
+	}
+	for k := int64(0); k < nShare; k++ {
+		if c.Want(idx + k) {
+			e.l2ShareSwitch(idx+k, c.CaseRand(idx+k), k%2 == 0)
+		}
+	}
+	idx += nShare
+	for k := int64(0); k < nShareConc; k++ {
+		if c.Want(idx + k) {
+			e.l2ShareSwitchConcurrent(idx+k, c.CaseRand(idx+k), k%2 == 0)
+		}
+	}
+	idx += nShareConc
+	e.checkNoLateReads(false)
 	// give stopped checkers a last chance to show a late measurement
 	t0 := e.w.ticks.Load()
 	for e.w.ticks.Load()-t0 < 20 {
@@ -1436,23 +1711,7 @@ func runL2(c *driver.Ctx, base *int64) {
 	*base = idx
 }
 
-// endAwayFromFlushTick works around a race in lib/driver.runChild (reported, not ours to edit): the child's
-// periodic result flush (every 2 s, started right before Run) is not joined before the final flush, so a tick
-// that is pending when Run returns can rewrite the result with done=false after the final flush and the parent
-// then reports the shard as died. Returning in the middle of a period makes that practically impossible.
-func endAwayFromFlushTick(t0 time.Time) {
-	const period = 2 * time.Second
-	for {
-		ph := time.Since(t0) % period
-		if ph > 300*time.Millisecond && ph < 1500*time.Millisecond {
-			return
-		}
-		time.Sleep(25 * time.Millisecond)
-	}
-}
-
 func run(c *driver.Ctx) {
-	defer endAwayFromFlushTick(time.Now())
 	for _, lc := range cfgs {
 		if _, _, ok := lc.limits(); !ok {
 			panic("harness: configuration without exact reference: " + lc.Name)
@@ -1477,7 +1736,7 @@ func main() {
 		Level: "exploration",
 		Rule: "L1: a case is one (sequence of reading classes {below soft, = soft, between, = hard, above hard}, effect of a forced GC on the re-measurement {none, to below soft, to exactly soft, to below hard only}, minimum-GC-interval regime {0/0, 1h/1h, 1h/0}, limit configuration in MiB or percent); all class sequences up to length 5 (quick) / 7 (thorough; length 7 under two of the four GC effects, alternating) are enumerated, plus random sequences of up to 12 further readings with a different GC effect per step; " +
 			"non-trivial = the reference refuse state changes at least once (the sequence crosses the soft limit); distinct = distinct (class sequence, regime, effect). " +
-			"L2: a case is one interleaving of start / shutdown / level change / consume over 2-4 processors (logs, traces, metrics, profiles) created from one configuration, the extension, or a concurrent start/consume/shutdown run; non-trivial = the limiter went into refusing mode at least once",
+			"L2: a case is one interleaving of start / shutdown / level change / consume over 2-4 processors (logs, traces, metrics, profiles) created from one configuration (after every Start / Shutdown of one sharer all started sharers are consumed through immediately, before any further check), a directed share-switch case (mode fixed refusing or not refusing, one sharer starts late, sharers leave one by one, sequentially or concurrently with a consuming anchor), the extension, or a concurrent start/consume/shutdown run; non-trivial = the limiter went into refusing mode at least once",
 		Assumptions: []string{
 			"limit configurations are those accepted by Config.Validate whose byte limits are exact integers (percentages of totals divisible by 100, default spike of limits divisible by 5), so the reference does not depend on rounding",
 			"minimum GC interval regimes 0 (always due) and 1 h (never due) are decided without a clock; the few real-interval cases judge a decision only when harness timestamps bracket it clearly on one side",
